@@ -383,17 +383,19 @@ class PrevOracle:
             self.rt = prev if ex == 0 else None
         if c.get("rt") == "end":
             rt, self.rt = getattr(self, "rt", None), None
+            label = c.get("rt_label", "commit -n k; uncommit <same names>")
             if rt is not None and ex == 0:
-                # C12_commit_uncommit_roundtrip, read off the real repository
+                # the round-trip theorems (C12_commit_uncommit_roundtrip, C12_uncommit_commit_roundtrip,
+                # C07_pop_push_roundtrip), read off the real repository
                 for k in ("applied", "unapplied", "hidden"):
                     if st[k] != rt["st"][k]:
-                        return "commit -n k; uncommit <same names> changed the %s patches: %r -> %r" % (k, rt["st"][k], st[k])
+                        return "%s changed the %s patches: %r -> %r" % (label, k, rt["st"][k], st[k])
                 if {n: v["oid"] for n, v in st["patches"].items()} != {n: v["oid"] for n, v in rt["st"]["patches"].items()}:
-                    return "commit -n k; uncommit <same names> did not give every patch the commit it had"
+                    return "%s did not give every patch the commit it had" % label
                 if cur["branch"] != rt["branch"] or cur["wt"] != rt["wt"] or cur["status"] != rt["status"]:
-                    return "commit -n k; uncommit <same names> changed the branch head, index or work tree"
+                    return "%s changed the branch head, index or work tree" % label
             elif rt is not None and ex != 0:
-                return "uncommit of the patches just committed, under their own names, failed (exit %r)" % ex
+                return "%s: the second command failed (exit %r) after the first had succeeded" % (label, ex)
         if c["c"] == "uncommit":
             if cur["branch"] != prev["branch"] or cur["wt"] != prev["wt"] or cur["status"] != prev["status"]:
                 return "stg uncommit changed the branch head, index or work tree"
